@@ -303,7 +303,17 @@ pub fn run(toks: &[&str], fails: &mut Vec<(String, String)>) -> String {
                     fails.push(("C20".into(), format!("evaluate {fl} on {} printed {stdout:?} (exit {code}), the library's predictions give {text:?}", clip(&stdin))));
                 }
                 if code == 0 && stdout == text {
-                    format!("0:{counts}")
+                    // the three floats as the TOOL printed them, parsed back (Rust's decimal output round-trips) and shown as bit
+                    // patterns: the model computes them with its exact binary64 arithmetic
+                    let bits = |key: &str| -> String {
+                        stdout
+                            .lines()
+                            .find_map(|l| l.strip_prefix(key))
+                            .and_then(|v| v.trim().parse::<f64>().ok())
+                            .map(|x| if x.is_nan() { "7ff8000000000000".to_string() } else { format!("{:016x}", x.to_bits()) })
+                            .unwrap_or_else(|| "unparsable".into())
+                    };
+                    format!("0:{counts};P={},R={},F={}", bits("Precision: "), bits("Recall: "), bits("F1: "))
                 } else {
                     format!("{code}:stdout={}", hex(stdout.as_bytes()))
                 }
@@ -377,6 +387,14 @@ pub fn gen(out: &mut dyn std::io::Write, thorough: bool, seed: u64) {
             for (k, l) in block.into_iter().enumerate() {
                 lines.insert(at + k, l);
             }
+        }
+        // long rejected lines: a NUL character behind 19…24 and 40…45 three-byte characters (a line the library rejects is answered
+        // with an empty line, however long it is and wherever its bytes fall)
+        if i % 4 == 1 {
+            let k = [19usize, 20, 21, 22, 23, 24, 40, 41, 42, 43, 44, 45][(i / 4) % 12];
+            let at = r.below(lines.len() + 1);
+            lines.insert(at, format!("{}\0{}", "あ".repeat(k), if r.chance(1, 2) { "x" } else { "漢字" }));
+            lines.insert(at, format!("ab{}\0", "漢".repeat(k + 1)));
         }
         let mut stdin = lines.join(if r.chance(1, 5) { "\r\n" } else { "\n" });
         if r.chance(4, 5) {
